@@ -575,6 +575,22 @@ fn network_case(rng: &mut Rng, idx: u64, out: &mut Out) {
     let with_block = (idx / 14) % 3 == 0;
     let via_learn = (idx / 42) % 3 == 0;
     let mut cfg = c01_net(rng, obj, with_block, softmax);
+    // every fifth backward case: the final dense layer is taken away when a convolution or
+    // deconvolution precedes it, so that the network ENDS in a spatial layer (image-valued
+    // output, image-shaped target) and that layer has predecessors to hand its gradient to
+    let mut image_out = false;
+    if !softmax && !via_learn && (idx / 9) % 5 == 2 && cfg.layers.len() >= 3 {
+        let n = cfg.layers.len();
+        if matches!(cfg.layers[n - 2], LCfg::Conv { .. } | LCfg::Deconv { .. }) {
+            let act = cfg.layers[n - 1].act().unwrap_or(Act::Linear);
+            cfg.layers.pop();
+            cfg.layers[n - 2].set_act(act);
+            if cfg.shapes().is_ok() {
+                image_out = true;
+                out.count("network_cases_ending_in_a_spatial_layer", 1);
+            }
+        }
+    }
     // dropout rates configured on random layers: they concern the forward passes of training
     // only, the hooked backward pass of a network that is not in training mode must ignore them
     if !via_learn && (idx / 5) % 4 == 2 {
@@ -658,7 +674,7 @@ fn network_case(rng: &mut Rng, idx: u64, out: &mut Out) {
     };
     net.set_objective(lib_obj(obj), None);
     let xin = tensor_of(cfg.input, &x);
-    let tt = Tensor::single(target.clone());
+    let tt = if image_out { tensor_of(cfg.shapes().unwrap().last().unwrap().1, &target) } else { Tensor::single(target.clone()) };
     // every fifth case checks the gradients of a network object that has already been trained
     // for a few steps (backward -> update -> backward on the same object); the oracle then
     // works with the parameters read back from the network
